@@ -2,14 +2,15 @@
 (* every sorted energy array / threshold / Kramers flag / energy range inside the constants: the band groups of
    get_borders (= find_degen), get_bands_in_range, get_bands_below_range; one TLC state per input *)
 EXTENDS Bands
-CONSTANTS NB, EMAX, THS
+CONSTANTS NB, EMAX, THS,
+          DropOddFinalBorder    \* TRUE: get_borders before the repair (must-fail variant: the last band of an odd array is in no group)
 VARIABLES E, th, kr, emin, emax, groups, inrange, below
 vars == <<E, th, kr, emin, emax, groups, inrange, below>>
 SortedArrays == UNION { {s \in [1..n -> 0..EMAX] : \A k \in 1..(n - 1) : s[k] <= s[k + 1]} : n \in 1..NB }
 Init == /\ E \in SortedArrays /\ th \in THS /\ kr \in BOOLEAN
         /\ (kr => KramersPaired(E, th))
         /\ emin \in {-1, 1, 2} /\ emax \in {1, 2, EMAX + 1} /\ emin <= emax
-        /\ groups = Borders(E, th, kr)
+        /\ groups = (IF DropOddFinalBorder THEN BordersDropOddFinal(E, th, kr) ELSE Borders(E, th, kr))
         /\ inrange = GroupsInRange(E, th, kr, emin, emax)
         /\ below = BandsBelow(E, emin)
 Next == UNCHANGED vars
